@@ -28,11 +28,16 @@ VARIABLES
     oldtags,      \* earlier instances, per id: <<routing tag, services that still owed it an answer when it ended>>
                   \* (the second component makes "a late reply genuinely meant for a departed instance" a state of its own,
                   \* so that the per-transition behaviours contain such histories and not only their shortest stand-ins)
+    repl,         \* per id: the current instance was announced while the previous one was still live (the request was
+                  \* replaced inside the table instead of inserted afresh).  B's state does not depend on it, the code's
+                  \* path does; keeping it in the state makes "everything that can follow a replacement" a part of the
+                  \* graph of its own, so the per-transition behaviours contain replacement histories and not only their
+                  \* withdraw-then-announce stand-ins
     hist          \* history ghost: sequence of [e |-> event, o |-> output, n |-> in use]
 
 A == INSTANCE IAuthContract
 
-mcvars == <<serial, req, slots, ev, out, cst, cviol, inst, npw, oldtags, hist>>
+mcvars == <<serial, req, slots, ev, out, cst, cviol, inst, npw, oldtags, repl, hist>>
 
 ContractCfg == [svcs |-> IF XQ THEN Services ELSE << >>, required |-> IauthFlags, timeout |-> TimeoutOn, xq |-> XQ]
 
@@ -42,6 +47,7 @@ MCInit == /\ Init
           /\ inst = [i \in Ids |-> 0]
           /\ npw = [i \in Ids |-> 0]
           /\ oldtags = [i \in Ids |-> {}]
+          /\ repl = [i \in Ids |-> FALSE]
           /\ hist = <<>>
 
 SvcNameSet == IF XQ THEN {Services[n].name : n \in 1..Len(Services)} ELSE {"a1.svc"}
@@ -146,17 +152,18 @@ MCNext ==
        /\ oldtags' = [i \in Ids |-> oldtags[i] \cup
                         (IF Live(i) /\ (i \notin DOMAIN req' \/ req'[i].serial # req[i].serial)
                          THEN { <<Routing(i, req[i].serial), {slots[s].name : s \in req[i].ref}>> } ELSE {})]
+       /\ repl' = IF e.e = "C" THEN [repl EXCEPT ![e.id] = Live(e.id)] ELSE repl
        /\ hist' = Append(hist, [e |-> e, o |-> out', n |-> Cardinality(DOMAIN req')])
 
 MCSpec == MCInit /\ [][MCNext]_mcvars
 
 \* state identity: everything but the ghosts (cviol stays in: a violating step must not be deduplicated away)
 SlotsNoRefs == [s \in 1..Len(slots) |-> [slots[s] EXCEPT !.refs = 0]]
-MCView == <<serial, req, SlotsNoRefs, cst, cviol, inst, npw, oldtags, IF Script = <<>> THEN 0 ELSE Len(hist)>>
+MCView == <<serial, req, SlotsNoRefs, cst, cviol, inst, npw, oldtags, repl, IF Script = <<>> THEN 0 ELSE Len(hist)>>
 
 \* one complete behaviour per explored transition
 Emit == \/ EmitMod = 0
-        \/ (EmitMod > 1 /\ TLCGet("generated") % EmitMod # 0)
+        \/ (EmitMod > 1 /\ RandomElement(1..EmitMod) # 1)
         \/ PrintT("@@E" \o ToJson(hist'))
 
 \* simulation mode: print the behaviour once it has reached the requested length
